@@ -33,3 +33,10 @@ func (this *RaftGroup) VerifCancel() { this.ctxCancel() }
 func (this *RaftGroup) VerifSetLeader(id uint64) { this.raftLeaderId = id }
 
 func (this *RaftGroup) VerifTrySnapshot(idx, skip uint64) error { return this.trySnapshot(idx, skip) }
+
+// VerifSnapshot produces the group's application snapshot the way trySnapshot does.
+func (this *RaftGroup) VerifSnapshot() ([]byte, error) { return this.snapshotFn() }
+
+// VerifProcessSnapshot installs an application snapshot the way a received
+// raft snapshot is processed.
+func (this *RaftGroup) VerifProcessSnapshot(data []byte) error { return this.processSnapshotFn(data) }
